@@ -24,6 +24,7 @@ import (
 	"strings"
 	"time"
 
+	"github.com/Ptt-official-app/go-pttbbs/bbs"
 	"github.com/Ptt-official-app/go-pttbbs/cache"
 	"github.com/Ptt-official-app/go-pttbbs/cmbbs"
 	"github.com/Ptt-official-app/go-pttbbs/cmsys"
@@ -46,7 +47,7 @@ const (
 )
 
 // the boards of the fixture, in .BRD order (bid = index+1)
-var boardNames = []string{"SYSOP", "SECURITY", "ALLPOST", "ALLHIDPOST", "NEWIDPOST", "UnAnonymous", "vsrc", "vtgt"}
+var boardNames = []string{"SYSOP", "SECURITY", "ALLPOST", "ALLHIDPOST", "NEWIDPOST", "UnAnonymous", "vsrc", "vtgt", "vsrc2"}
 
 func bidOf(name string) ptttype.Bid {
 	for i, n := range boardNames {
@@ -457,7 +458,16 @@ func setupHome() {
 	uid := &ptttype.UserID_t{}
 	copy(uid[:], theID)
 	must(cache.SetUserID(theUID, uid))
+	uid12 := &ptttype.UserID_t{}
+	copy(uid12[:], id12)
+	must(cache.SetUserID(uid12Slot, uid12))
 }
+
+// a second account whose id has the full 12 characters
+const (
+	id12      = "verifuverifu"
+	uid12Slot = ptttype.UID(41)
+)
 
 func clearDir(d string) {
 	es, err := os.ReadDir(d)
@@ -686,6 +696,8 @@ func uidOf(u *ptttype.UserecRaw) ptttype.UID {
 		return 1
 	case "CodingMan":
 		return 2
+	case id12:
+		return uid12Slot
 	}
 	return theUID
 }
@@ -699,7 +711,7 @@ func callOp(op string, r row, u *ptttype.UserecRaw) string {
 	return hx.CallT(20*time.Second, func() string {
 		switch op {
 		case "newpost":
-			_, err := ptt.NewPost(u, theUID, sID, sBid, []byte("test"), []byte("hello"), [][]byte{[]byte("line 1"), []byte("line 2")}, theIP, nil)
+			_, err := ptt.NewPost(u, uidOf(u), sID, sBid, []byte("test"), []byte("hello"), [][]byte{[]byte("line 1"), []byte("line 2")}, theIP, nil)
 			return errClass(err)
 		case "recommend":
 			_, _, err := ptt.Recommend(u, uidOf(u), sID, sBid, fn, ptttype.COMMENT_TYPE_RECOMMEND, []byte("nice"), theIP, nil)
@@ -931,6 +943,90 @@ func banKind(board string) string {
 		return "dir"
 	}
 	return "file"
+}
+
+// ---- the BM field and bbs-level board ids ---------------------------------------------------------------
+
+var bmTokens = map[string]string{"V": id12, "v": "VERIFUVERIFU", "Vx": id12 + "X", "Vxx": id12 + "Xtra", "c": "CodingMan", "p": "pichu",
+	"k": "Kahou", "s": "SYSOP", "z": "nosuchuser", "e": ""}
+
+func execBMField(line, op string, toks []string) {
+	var names []string
+	for _, t := range toks {
+		names = append(names, bmTokens[t])
+	}
+	field := strings.Join(names, "/")
+	r := baseRow()
+	r.id = id12
+	r.a.entOwner = id12
+	b := &r.s
+	if op == "crosspost" {
+		b = &r.t
+	}
+	b.lg = 255
+	keepFriends = false
+	materialise(r, 0, true)
+	u := makeUser(r)
+	must(cmbbs.PasswdUpdate(uid12Slot, u))
+	cache.Shm.Shm.CooldownTime[uid12Slot-1] = 0
+	// the moderator cache of the board from its BM field, as cache.buildBMCache does
+	bi := int(bidOf(b.name)) - 1
+	h := &cache.Shm.Shm.BCache[bi]
+	h.BM = ptttype.BM_t{}
+	copy(h.BM[:], field)
+	cache.Shm.Shm.BMCache[bi] = *cache.ParseBMList(&h.BM)
+	defer func() { h.BM = ptttype.BM_t{} }()
+	before := snapshot()
+	res := callOp(op, r, u)
+	trace := "same"
+	if snapshot() != before {
+		trace = "changed"
+	}
+	i := run.Op(line, res+" "+trace, "bmfield:"+op+":"+res, true)
+	// P̂: the account is a moderator only if a token of the field IS its id
+	named := false
+	for _, n := range names {
+		if strings.EqualFold(n, id12) {
+			named = true
+		}
+	}
+	if res == "ok" && !named {
+		run.Fail(i, "missing:"+op+":restriction", fmt.Sprintf("%s accepted for an account below the board's login-days limit that is not named in the BM field %q", op, field))
+	}
+	if res != "ok" && res != "err:lookup" && trace == "changed" {
+		run.Fail(i, "refused-sideeffect:"+op, "refused but left a trace")
+	}
+}
+
+func execBBSID(line, bidName, req string) {
+	r := baseRow()
+	r.s.lg = 255 // vsrc is the protected board
+	keepFriends = false
+	u := materialise(r, 0, true)
+	before := snapshot()
+	res := hx.CallT(20*time.Second, func() string {
+		bid, boardIDRaw, err := bbs.BBoardID(fmt.Sprintf("%d_%s", bidOf(bidName), req)).ToRaw()
+		if err != nil {
+			return "err:idmismatch"
+		}
+		_, err = ptt.NewPost(u, theUID, boardIDRaw, bid, []byte("test"), []byte("hello"), [][]byte{[]byte("line 1")}, theIP, nil)
+		return errClass(err)
+	})
+	trace := "same"
+	if snapshot() != before {
+		trace = "changed"
+	}
+	i := run.Op(line, res+" "+trace, "bbsid:"+res, true)
+	// P̂: permissions are checked by bid, files addressed by name: the name must be exactly the name of that bid
+	if res != "err:idmismatch" && req != bidName {
+		run.Fail(i, "bbsid:name-mismatch-accepted", fmt.Sprintf("the request id %d_%s (board %d is %q) passed bbs.BBoardID.ToRaw: %s %s", bidOf(bidName), req, bidOf(bidName), bidName, res, trace))
+	}
+	if res == "ok" && req == "vsrc" {
+		run.Fail(i, "missing:newpost:restriction", "a post was written into board vsrc (2550 login days demanded) by a user with 100")
+	}
+	if res != "ok" && trace == "changed" {
+		run.Fail(i, "refused-sideeffect:newpost", "refused but the boards changed")
+	}
 }
 
 // ---- histories on the ban record ------------------------------------------------------------------------
@@ -1361,6 +1457,46 @@ func execLine(line string) {
 		return
 	}
 	switch {
+	case ws[1] == "bmfield":
+		if len(ws) != 4 || !ops[ws[2]] {
+			bad()
+			return
+		}
+		toks := strings.Split(ws[3], ",")
+		n := len(toks) - 1
+		for _, t := range toks {
+			v, ok := bmTokens[t]
+			if !ok {
+				bad()
+				return
+			}
+			n += len(v)
+		}
+		if n > 38 {
+			bad()
+			return
+		}
+		execBMField(line, ws[2], toks)
+	case ws[1] == "bbsid":
+		if len(ws) != 4 || bidOf(ws[2]) == 0 {
+			bad()
+			return
+		}
+		req, ok := pName(ws[3])
+		if !ok || len(req) > 12 || strings.ContainsAny(req, "_/") {
+			bad()
+			return
+		}
+		for _, c := range []byte(req) {
+			if c <= 32 {
+				ok = false
+			}
+		}
+		if !ok {
+			bad()
+			return
+		}
+		execBBSID(line, ws[2], req)
 	case ws[1] == "banrec":
 		if len(ws) != 4 || !ops[ws[2]] {
 			bad()
